@@ -92,6 +92,7 @@ type refEdge struct {
 // certificates).
 func refPaths(g *verifier.Graph, start refEdge, strict bool) []string {
 	var out []string
+	allEdges := g.Edges()
 	maxLen := 9
 	if !strict {
 		maxLen = 11
@@ -105,7 +106,15 @@ func refPaths(g *verifier.Graph, start refEdge, strict bool) []string {
 		if cur == nil || len(chain) >= maxLen {
 			return
 		}
-		for issuerNode, edges := range verifier.VerifNodeParents(cur) {
+		// the certificates issued to the current identity, taken from the graph's edge list (not from the
+		// walker's own parent index), grouped by issuer node; issuer-less edges are grouped under nil
+		parents := map[*verifier.GraphNode][]*verifier.GraphEdge{}
+		for _, e := range allEdges {
+			if v := verifier.VerifEdge(e); v.Child == cur {
+				parents[v.Issuer] = append(parents[v.Issuer], e)
+			}
+		}
+		for issuerNode, edges := range parents {
 			// never move to an issuer identity that already occurs in the chain
 			seen := false
 			if issuerNode != nil {
